@@ -94,6 +94,13 @@ def url_to_tla(target):
 
 
 def make_doc(rnd, mode, want_allow, path, caller, n):
+    d = _make_doc(rnd, mode, want_allow, path, caller, n)
+    if rnd.random() < 0.2:
+        d["mode"] = rnd.choice([d["mode"].capitalize(), d["mode"].upper()])      # the three mode words, in any letter case
+    return d
+
+
+def _make_doc(rnd, mode, want_allow, path, caller, n):
     """A rule document in `mode` whose declared decision for (caller, path) is want_allow."""
     lp = path.lower()
     pre = lp[:max(1, rnd.randint(1, len(lp)))] if rnd.random() < 0.5 else lp
@@ -244,6 +251,8 @@ def concretize(case, rnd, n, harness_exe, thorough, session=None):
     if rnd.random() < 0.1:
         # a Connection header that nominates proxy-owned names as hop-by-hop must not make the proxy drop its stamps
         headers.insert(rnd.randint(1, len(headers)), ["Connection", "keep-alive, %s, %s" % (rand_case(rnd, OWNED[0]), OWNED[1])])
+    if rnd.random() < 0.05:
+        headers.insert(rnd.randint(1, len(headers)), ["X-Note", "caf\u00e9 \u00ff"])      # obs-text (bytes >= 0x80) in a field value
     if not session and rnd.random() < 0.04:
         # as many header fields as the listener accepts (100 in all): the proxy's own stamps must still all be there
         want_total = rnd.choice([96, 97, 98, 99, 100])
@@ -266,6 +275,9 @@ def concretize(case, rnd, n, harness_exe, thorough, session=None):
     else:
         steps.append({"op": "clear_key"})
     steps.append({"op": "fault", "rules_lookup_fails": bool(case["fault"])})
+    # the secure-channel state string the key keeper publishes is not an input of any decision about a request
+    steps.append({"op": "set_channel_state", "state": rnd.choice(["Unknown", "disabled", "wireserver", "wireserverandimds",
+                                                                  "WireServer Enforce -  IMDS Audit - HostGA Enforce"])})
     steps.append({"op": "snapshot", "tag": rid + ":before"})
     attr = None
     if own["has"]:
@@ -275,7 +287,15 @@ def concretize(case, rnd, n, harness_exe, thorough, session=None):
         steps.append({"op": "connect", "conn": cid, "attr": attr})
     host_status = rnd.choice([200, 200, 201, 404, 500])
     host_fault = "reset" if (not session and case["forwarded"] and rnd.random() < 0.12) else "none"
-    req = {"op": "request", "conn": cid, "id": rid, "method": method, "target": target, "headers": headers,
+    wire_target = target
+    if not session and not sh["prov"] and not exempt and rnd.random() < 0.05:
+        # (not for the two exempt uploads: the statements name them by their origin-form URL; how another spelling of the
+        #  request target is classified is not specified)
+        # absolute-form request target naming ANOTHER authority than the recorded destination: what is done with the request
+        # is decided by the connection's record, not by what the request line claims
+        other = rnd.choice(["169.254.169.254", "168.63.129.16", "10.1.2.3:8080", "127.0.0.1:3080"])
+        wire_target = "http://%s%s" % (other, target)
+    req = {"op": "request", "conn": cid, "id": rid, "method": method, "target": wire_target, "headers": headers,
            "body": {"seed": n, "len": blen}, "framing": framing,
            "resp": {"status": host_status, "headers": [["content-type", "text/plain"], ["x-host-says", rid]],
                     "body": {"text": "host-" + rid}}}
@@ -297,6 +317,7 @@ def concretize(case, rnd, n, harness_exe, thorough, session=None):
     steps.append({"op": "mark", "tag": "end:" + rid})
     meta = {
         "id": rid, "conn": cid, "case": case, "attributed": bool(own["has"]), "elevated": bool(own["elevated"]), "dest": dest,
+        "wireTarget": wire_target,
         "uid": uid, "caller": caller, "rules": mode, "doc": doc, "fault": bool(case["fault"]),
         "keyPresent": case["key"] != "nokey", "method": method, "target": target, "trav": ".." in target.partition("?")[0],
         "prov": target == "/provision", "exempt": exempt, "bodyLen": body_len_seen, "sentLen": blen, "framing": framing,
@@ -399,7 +420,7 @@ def observe(events, metas):
             spoofed = {v for n, v in m["headers"] if n.lower() in OWNED}
             row.update({
                 "bodyIntact": h["bodyLen"] == m["sentLen"] and h["bodySha"] == util.sha(rig.gen_body(int(rid[1:]), m["sentLen"])) and len(hr) == 1
-                              and h["method"] == m["method"] and h["target"] == m["target"],
+                              and h["method"] == m["method"] and h["target"] == m.get("wireTarget", m["target"]),
                 "hClaims": len(claims),
                 "hClaimsElevated": bool(claims) and claims[0] == '{ "isRoot": "true"}',   # what the header states
                 "hDate": len(dates), "hDateIsProxy": bool(dates) and date_is_proxy(dates[0], spoofed, h.get("t")),
